@@ -280,6 +280,10 @@ HOSTILE_TEXT = [
     "y" * 256,
     "(objectClass=*)",
     "߿ࠀ￿",
+    "LDAP://dc01.example.com/DC=example,DC=com",
+    "GC://dc01.example.com",
+    "ldaps://h:636/??sub",
+    "LdApS://[::1]/o=x?cn?one?(cn=*)",
 ]
 ATTRS = ["cn", "objectClass", "sAMAccountName", "1.2.840.113556.1.4.803", "cn;lang-en", "o-0", "0.9.2342",
          # the same names in other spellings: equal for a directory, different octets on the wire
